@@ -137,6 +137,7 @@ def finish(ctx, t0, seed, explanation, assumptions, trusted=None, exhaustive=Non
         "analysed_crates": [{"crate": c.name, "file": c.fname, "functions": sum(len(v) for v in c.raw_fns.values())} for c in ctx.facts.crates],
         "known_findings_matched": [v["key"] for _, v in seen_known],
         "violating_keys": [v["key"] for v in real],
+        "instance_keys": sorted({"%s|%s" % (i_[0], i_[1]) for i_ in ctx.instances}),
     }
     cov.update(ctx.extra)
     if exhaustive is not None:
